@@ -49,6 +49,10 @@ CHECKS = {
              text="Fault enumeration decided by TLC: all pipelines of 0..2 (quick) / 0..3 (thorough) stages exhaustively, 3..5 stages sampled, each stage's checkpoint / processor / error handler independently passing, rejecting or raising, required or optional, both halt_on_failure settings, factors incl. beyond the clamp; GateFirst, FailClosed, HaltStops, SuccessMeansAll (incl. output = composition, none released on failure) and Amplification are evaluated on the recorded invocation log of the real run; plus the MAPK preset with gate-passing / rejecting / raising inputs.",
              note="Trusted: TLC/SANY, logging stub callbacks. Amplification factors >= 1 (clamped product unambiguous). 4-5 stage pipelines are sampled with the seed.",
              ref="DESIGN.md section 4 C19"),
+ "C06": dict(technique="TLA+ spec (Quorum.tla: per-strategy criteria in exact integer arithmetic) model-checked with TLC incl. Monotone over all one-step improvements; every ballot of the bounded grid x configuration run through the real run_vote and judged by TLC (Trace_Quorum.tla), Monotone on the recorded improvement edges",
+             text="Exhaustive over the bounded ballot space: all ballots of 1-3 voters on a dyadic weight/confidence grid incl. 0 and of 5 (thorough: 7) voters on vote kinds, for all seven strategies and EmergencyQuorum, default / fractional / count thresholds and min_voters 1..3, executed on the real aggregation code with stub voters; TLC evaluates NoSupportNoPermit, UnanimousPermits, BlockDefeatsUnanimous, CountsMatch on every record and Monotone on every improvement edge.",
+             note="Trusted: TLC/SANY, stub voters via AgentProfile.agent. Dyadic grid so float ratios are exact. BAYESIAN is judged by the property clauses only (unanimity clause up to the default threshold).",
+             ref="DESIGN.md section 4 C06"),
 }
 NOT_APPLICABLE = []
 
